@@ -309,6 +309,18 @@ def run_property(mod, pid, tier, seed, nshards):
             failures.append({"sub": data["sub"], "case": _jsonable(case), "fail": fail.to_json()})
     merged.evaluations += ctx.stats.evaluations
     merged.nontrivial.update(ctx.stats.nontrivial)
+    # optional non-Hypothesis engine of the module (e.g. a libFuzzer campaign, a TSan soak): it updates
+    # `merged` itself and returns failures [{"sub": name, "case": jsonable, "fail": Fail}], which are then
+    # re-verified through the Sub of that name exactly like Hypothesis failures
+    if hasattr(mod, "extra"):
+        try:
+            for f in mod.extra(tier, seed, merged) or []:
+                failures.append({"sub": f["sub"], "case": _jsonable(f["case"]),
+                                 "fail": f["fail"].to_json()})
+        except Exception:
+            print("TOOL ERROR in %s extra engine (no verdict):\n%s" % (pid, traceback.format_exc()),
+                  file=sys.stderr)
+            return 3
     for f in failures:
         case = dec_case(f["case"])
         key = (f["sub"], case_hash(case))
